@@ -55,6 +55,9 @@ impl Log {
 #[derive(Clone)]
 pub struct Uf {
     log: *mut Log,
+    /// `hash` is a concrete 2-byte fold of its input instead of a fresh value (differential
+    /// harnesses that compare two computations of the same digest)
+    toy: bool,
 }
 unsafe impl Send for Uf {}
 unsafe impl Sync for Uf {}
@@ -67,12 +70,33 @@ impl core::fmt::Debug for Uf {
 
 impl Uf {
     pub fn new(log: &mut Log) -> Self {
-        Uf { log: log as *mut Log }
+        Uf { log: log as *mut Log, toy: false }
     }
 
     /// No log: every call returns fresh symbolic bytes (cheaper; for harnesses about control flow).
     pub fn fresh() -> Self {
-        Uf { log: core::ptr::null_mut() }
+        Uf { log: core::ptr::null_mut(), toy: false }
+    }
+
+    /// Deterministic toy digest: two outputs differ only if the inputs differ, so a mismatch
+    /// between two computations under this provider is a mismatch of the hashed bytes.
+    pub fn toy() -> Self {
+        Uf { log: core::ptr::null_mut(), toy: true }
+    }
+
+    fn fold(data: &[u8]) -> Vec<u8> {
+        let mut h0: u8 = 0x5a;
+        let mut h1: u8 = 0xc3;
+        let mut i = 0;
+        while i < data.len() {
+            h0 = h0.rotate_left(1) ^ data[i];
+            h1 = h1.wrapping_add(data[i]).rotate_left(3) ^ h0;
+            i += 1;
+        }
+        let mut out = Vec::with_capacity(NH);
+        out.push(h0);
+        out.push(h1);
+        out
     }
 
     fn record(&self, f: F, a: &[u8], b: &[u8], len: usize) -> Vec<u8> {
@@ -165,6 +189,9 @@ impl CipherSuiteProvider for Uf {
     }
 
     fn hash(&self, data: &[u8]) -> Result<Vec<u8>, UfError> {
+        if self.toy {
+            return Ok(Self::fold(data));
+        }
         Ok(self.record(F::Hash, data, &[], NH))
     }
 
